@@ -378,6 +378,18 @@ def gen_coder_cases(rng, tier):
     return [Case(ops[i:i + 8], {"stream": "coders"}) for i in range(0, len(ops), 8)]
 
 
+def _lists_query(arg):
+    """the query string an argument of q_lists contributes (None: nothing is appended)"""
+    if arg == "null":
+        return b""
+    if arg.startswith("u"):
+        u = unhx(arg[1:])
+        if not u.startswith(b"h/p?"):
+            return None
+        return u[4:]
+    return unhx(arg)
+
+
 def gen_query_cases(rng, tier):
     qs = []
     for n in range(0, 8 if tier == "quick" else 10):
@@ -390,6 +402,36 @@ def gen_query_cases(rng, tier):
     for _ in range(60 if tier == "quick" else 1500):
         qs.append(rbytes(rng, rng.choice([63, 64, 65, 127, 129, 255, 257, rng.randint(30, 1200)]), b"abcdefgh=&&%/?:"))
     cases = [Case(["q_iter null", "q_list null"], {"stream": "query"})]
+    # the list forms on an output list that already holds entries: a second call on the same list, pre-seeded lists,
+    # static lists (exact fit, one short, roomy) and dynamic lists past two capacity growths; expected = previous
+    # contents ++ pairs of each query
+    pool = [b"a=1&b=2&keyonly&=v", b"x=1&y=2&z=3", b"k", b"", b"&&", b"p=1&q=2&r=3&s=4&t=5&u=6&v=7&w=8&x=9", b"a=/b&u=x://y"]
+    lops = []
+    for _ in range(250 if tier == "quick" else 6000):
+        args = []
+        for _ in range(rng.randint(1, 4)):
+            q = rng.choice(pool) if rng.random() < 0.6 else rbytes(rng, rng.randint(0, 14), b"ab=&&")
+            r = rng.random()
+            if r < 0.25:
+                args.append("u" + hx(b"h/p?" + q))
+            elif r < 0.3:
+                args.append("null")
+            elif r < 0.35:
+                args.append("u" + hx(rng.choice([b"h", b"", b"h:x"])))   # no query / unparsable
+            else:
+                args.append(hx(q))
+        if rng.random() < 0.3:
+            args.append(args[0])          # the same query again
+        args = args[:8]
+        nseed = rng.choice([0, 0, 1, 3, 9])
+        total = nseed + sum(len(ref_pairs(_lists_query(a) or b"")) for a in args)
+        r = rng.random()
+        if r < 0.55:
+            mode = "d" + str(rng.choice([1, 1, 2, 4, 16]))
+        else:
+            mode = "s" + str(max(nseed, 1, rng.choice([total, total - 1, total + 1, total + 5, total // 2])))
+        lops.append(f"q_lists {mode} {nseed} " + " ".join(args))
+    cases += [Case(lops[i:i + 4], {"stream": "query"}) for i in range(0, len(lops), 4)]
     for i in range(0, len(qs), 4):
         ops = []
         for q in qs[i:i + 4]:
@@ -586,6 +628,32 @@ def oracle(case, lines):
                         errs.append(f"decode of {x!r} refused: {f['rc']}")
                     elif unhx(f["out"]) != exp or int(f["len"]) != pl + len(exp):
                         errs.append(f"decode of {x!r} gives {unhx(f['out'])!r}, expected {exp!r}")
+            elif t[0] == "q_lists":
+                f = fields(L.next("P lists "))
+                n = int(f["n"])
+                got = []
+                for _ in range(n):
+                    g = fields(L.next("P litem "))
+                    got.append((unhx(g["key"]), unhx(g["value"])))
+                cap = int(t[1][1:]) if t[1][0] == "s" else None
+                exp = [(b"dk%d" % i, b"dv%d" % i) for i in range(int(t[2]))]
+                rcs = []
+                for a in t[3:]:
+                    q = _lists_query(a)
+                    if q is None:
+                        rcs.append("PARSE" if unhx(a[1:]) in (b"", b"h:x") else "OK")
+                        continue
+                    rc = "OK"
+                    for kv in ref_pairs(q):
+                        if cap is not None and len(exp) >= cap:
+                            rc = "AWS_ERROR_LIST_EXCEEDS_MAX_SIZE"
+                            break
+                        exp.append(kv)
+                    rcs.append(rc)
+                if got != exp:
+                    errs.append(f"{op[:120]}: list after the calls is {got!r}; entries already in the list followed by the pairs of each query are {exp!r}")
+                elif f["rcs"].split(",") != rcs:
+                    errs.append(f"{op[:120]}: return codes {f['rcs']}, expected {','.join(rcs)}")
             elif t[0] in ("q_iter", "q_list", "uq_iter", "uq_list"):
                 via = t[0].startswith("uq")
                 if via:
@@ -625,7 +693,7 @@ def oracle(case, lines):
 def nontrivial(case):
     for op in case.ops:
         t = op.split()
-        if t[0] in ("enc_path", "enc_param", "dec", "q_iter", "q_list", "build"):
+        if t[0] in ("enc_path", "enc_param", "dec", "q_iter", "q_list", "q_lists", "build"):
             return True
         if "#" in t and comp_from_annot(t[t.index("#") + 1:]).ok():
             return True
